@@ -13,6 +13,7 @@ import (
 	"encoding/hex"
 	"fmt"
 	"strings"
+	"sync"
 
 	gio "github.com/whatap/golib/io"
 	"github.com/whatap/golib/lang/pack"
@@ -74,12 +75,22 @@ func stackShape(s []int32) string {
 // at most one written-out sample per kind and shard, so that the few sample slots show
 // every family
 var sampled = map[string]bool{}
+var onceMu sync.Mutex // sampled / reported are also used from the parallel history section
+
+func wasSampled(kind string) bool {
+	onceMu.Lock()
+	defer onceMu.Unlock()
+	return sampled[kind]
+}
 
 func sampleOnce(kind string, v map[string]interface{}) {
+	onceMu.Lock()
 	if sampled[kind] || !c.WantSample() {
+		onceMu.Unlock()
 		return
 	}
 	sampled[kind] = true
+	onceMu.Unlock()
 	v["kind"] = kind
 	c.Sample(v)
 }
@@ -90,11 +101,14 @@ func sampleOnce(kind string, v map[string]interface{}) {
 var reported = map[string]bool{}
 
 func cheap(key string) bool {
-	if c.IsKnown(key) || reported[key] {
+	onceMu.Lock()
+	rep := reported[key]
+	reported[key] = true
+	onceMu.Unlock()
+	if c.IsKnown(key) || rep {
 		c.Fail(key, "", nil)
 		return true
 	}
-	reported[key] = true
 	return false
 }
 
@@ -142,6 +156,12 @@ func noteStepCoverage(s stepgen.RefStep) {
 // steps in the same order, each consuming exactly its own bytes (cumulative offsets equal
 // the reference's per-step sizes). Returns the number of steps that came back equal.
 func decodeStream(steps []stepgen.RefStep, sizes []int, b []byte, where string) int {
+	return decodeStreamK(steps, sizes, b, where, nil)
+}
+
+// decodeStreamK is decodeStream; with keep != nil the decoded step objects are appended to
+// *keep (index-aligned with steps) so that a history can look at them again later.
+func decodeStreamK(steps []stepgen.RefStep, sizes []int, b []byte, where string, keep *[]step.Step) int {
 	in := gio.NewDataInputX(b)
 	off, i, ok := 0, 0, 0
 	for in.Available() > 0 {
@@ -173,6 +193,9 @@ func decodeStream(steps []stepgen.RefStep, sizes []int, b []byte, where string) 
 		}
 		if compareStep(steps[i], stepgen.FromGolib(got), fmt.Sprintf("%s step %d/%d", where, i, len(steps)), seg) {
 			ok++
+		}
+		if keep != nil {
+			*keep = append(*keep, got)
 		}
 		off += sizes[i]
 		i++
@@ -343,14 +366,28 @@ func compareTx(prefix string, want, got stepgen.RefTxRecord, where string, enc [
 func main() {
 	c = vlib.Start("C08")
 
+	// under the race detector only the multi-object histories run (history.go): they are the
+	// part with several goroutines
+	if c.Flavour == "race" {
+		historySections(true)
+		c.Finish()
+		fmt.Println("done", strings.ToLower(c.Prop))
+		return
+	}
+
 	// (1) step streams: 0..200 steps over the registered types
 	nStreams := c.N(12000, 180000)
 	c.Cases("step-stream", nStreams, func(i int, r *vlib.Rand) {
 		n := streamLen(i, r)
 		steps := stepgen.GenSteps(r, n)
 		where := fmt.Sprintf("stream of %d", n)
+		l := newLedger("step-stream")
+		l.op("ToBytesStep")
 		b, sizes, _ := encodeStream(steps, where)
+		l.hold("ToBytesStep", b)
+		l.op("decode the stream")
 		ok := decodeStream(steps, sizes, b, where)
+		l.end()
 		for k := range steps {
 			noteStepCoverage(steps[k])
 		}
@@ -364,7 +401,7 @@ func main() {
 			c.Count("streams_with_2plus_steps", 1)
 			c.DistinctBytes(b)
 		}
-		if n >= 3 && n <= 8 && len(b) < 400 && !sampled["step-stream"] {
+		if n >= 3 && n <= 8 && len(b) < 400 && !wasSampled("step-stream") {
 			var ty []string
 			for k := range steps {
 				ty = append(ty, fmt.Sprintf("%s@%d", refcodec.StepTypeName(steps[k].Type), sizes[k]))
@@ -391,7 +428,11 @@ func main() {
 		s := stepgen.GenStep(r, t)
 		name := refcodec.StepTypeName(t)
 		g := stepgen.ToGolib(s)
+		l := newLedger("step-single")
+		defer l.end()
+		l.op("WriteStep")
 		enc := step.WriteStep(gio.NewDataOutputX(), g).ToByteArray()
+		l.hold("WriteStep", enc)
 		w := refcodec.NewW()
 		w.Step(s)
 		if !bytes.Equal(enc, w.B) {
@@ -399,8 +440,11 @@ func main() {
 				map[string]interface{}{"step": short(fmt.Sprintf("%+v", s)), "golib": hexFull(enc), "reference": hexFull(w.B)})
 		}
 		// body only through the type's own Write (no tag)
+		l.op(name + ".Write")
 		o := gio.NewDataOutputX()
 		g.Write(o)
+		l.hold(name+".Write", o.ToByteArray())
+		l.verify()
 		if body := refcodec.EncodeStepBody(s); !bytes.Equal(o.ToByteArray(), body) {
 			c.Fail(name+":bytes-differ", fmt.Sprintf("the body written by %s.Write differs from the reference at byte %d", name, firstDiff(o.ToByteArray(), body)),
 				map[string]interface{}{"step": short(fmt.Sprintf("%+v", s)), "golib": hexFull(o.ToByteArray()), "reference": hexFull(body)})
@@ -424,6 +468,8 @@ func main() {
 		if compareStep(s, stepgen.FromGolib(got), "single "+name, enc) {
 			c.Count("single_steps_equal", 1)
 			// re-encoding a correctly decoded step reproduces the bytes
+			l.op("ReadStep, WriteStep(decoded)")
+			l.verify()
 			if re := step.WriteStep(gio.NewDataOutputX(), got).ToByteArray(); !bytes.Equal(re, enc) {
 				c.Fail(name+":reencode-differs", fmt.Sprintf("re-encoding the decoded %s differs from the original at byte %d", name, firstDiff(re, enc)),
 					map[string]interface{}{"step": short(fmt.Sprintf("%+v", s)), "original": hexFull(enc), "reencoded": hexFull(re)})
@@ -451,15 +497,23 @@ func main() {
 		}
 		c.SetAdd("messagestepx_attr_shapes", shape)
 		g := stepgen.ToGolib(s).(*step.MessageStepX)
+		l := newLedger("messagestepx")
+		defer l.end()
+		l.op("MessageStepX.Write")
 		o := gio.NewDataOutputX()
 		g.Write(o)
 		enc := o.ToByteArray()
+		l.hold("MessageStepX.Write", enc)
 		if ref := refcodec.EncodeStepBody(s); !bytes.Equal(enc, ref) {
 			c.Fail("MessageStepX:bytes-differ", fmt.Sprintf("MessageStepX.Write (%s) differs from the reference at byte %d", shape, firstDiff(enc, ref)),
 				map[string]interface{}{"shape": shape, "step": short(fmt.Sprintf("%+v", s)), "golib": hexFull(enc), "reference": hexFull(ref)})
 		}
 		// tagged form: WriteStep puts the tag 22 in front (the stream decoder does not know it)
+		l.op("WriteStep(MessageStepX)")
 		tagged := step.WriteStep(gio.NewDataOutputX(), g).ToByteArray()
+		l.hold("WriteStep", tagged)
+		l.verify()
+		l.op("MessageStepX.Read")
 		if len(tagged) != len(enc)+1 || tagged[0] != refcodec.StepTMessageX || !bytes.Equal(tagged[1:], enc) {
 			c.Fail("MessageStepX:bytes-differ", "WriteStep(MessageStepX) is not tag 22 + body", hexFull(tagged))
 		}
@@ -497,9 +551,14 @@ func main() {
 			s.Opt = byte(i&7) | byte(i>>3)<<5 // every combination of the three flags, with and without foreign bits
 		}
 		g := stepgen.Sql3ToGolib(s)
+		l := newLedger("sqlstep3")
+		defer l.end()
+		l.op("SqlStep_3.Write")
 		o := gio.NewDataOutputX()
 		g.Write(o)
 		enc := o.ToByteArray()
+		l.hold("SqlStep_3.Write", enc)
+		l.op("SqlStep_3.Read")
 		if ref := refcodec.EncodeStepBody(s); !bytes.Equal(enc, ref) {
 			c.Fail("SqlStep_3:bytes-differ", fmt.Sprintf("SqlStep_3.Write (opt=%d) differs from the reference at byte %d", s.Opt&7, firstDiff(enc, ref)),
 				map[string]interface{}{"step": short(fmt.Sprintf("%+v", s)), "golib": hexFull(enc), "reference": hexFull(ref)})
@@ -538,7 +597,11 @@ func main() {
 		key := txShapeKey(sh)
 		c.SetAdd("tx_shapes_covered", key)
 		g := stepgen.TxToGolib(t)
+		l := newLedger("txrecord")
+		defer l.end()
+		l.op("TxRecord.ToBytes")
 		enc := g.ToBytes()
+		l.hold("TxRecord.ToBytes", enc)
 		ref := refcodec.EncodeTxRecord(t)
 		if !bytes.Equal(enc, ref) {
 			c.Fail("TxRecord:bytes-differ", fmt.Sprintf("TxRecord.ToBytes (%s) differs from the reference at byte %d", key, firstDiff(enc, ref)),
@@ -569,6 +632,8 @@ func main() {
 		}
 		compareTx("TxRecord", t, stepgen.TxFromGolib(q2), "tx record (Read) "+key, enc)
 		// re-encoding the decoded record gives the canonical record's bytes
+		l.op("ToObject, Read, ToBytes of the decoded record")
+		l.verify()
 		if re, want := q.ToBytes(), refcodec.EncodeTxRecord(stepgen.TxCanon(t)); !bytes.Equal(re, want) {
 			c.Fail("TxRecord:reencode-differs", fmt.Sprintf("re-encoding the decoded record (%s) differs from the canonical encoding at byte %d", key, firstDiff(re, want)),
 				map[string]interface{}{"shape": sh.String(), "reencoded": hexFull(re), "canonical": hexFull(want)})
@@ -592,6 +657,11 @@ func main() {
 			ends[k] = w.Len()
 		}
 		b := o.ToByteArray()
+		l := newLedger("txrecord-stream")
+		defer l.end()
+		l.op("TxRecord.Write ×n")
+		l.hold("TxRecord.Write", b)
+		l.op("TxRecord.Read ×n")
 		if !bytes.Equal(b, w.B) {
 			c.Fail("TxRecord:bytes-differ", fmt.Sprintf("a stream of %d records differs from the reference at byte %d", n, firstDiff(b, w.B)),
 				map[string]interface{}{"golib": hexFull(b), "reference": hexFull(w.B)})
@@ -641,6 +711,11 @@ func main() {
 				return
 			}
 		}
+		l := newLedger("service-stream")
+		defer l.end()
+		l.op("service.ToBytes ×n")
+		l.hold("service.ToBytes", o.ToByteArray())
+		l.op("service.ToObject ×n")
 		b := withCanary(o.ToByteArray())
 		in := gio.NewDataInputX(b)
 		for k := 0; k < n; k++ {
@@ -686,8 +761,16 @@ func main() {
 		for k := range gs {
 			gs[k] = stepgen.ToGolib(rp.Steps[k])
 		}
+		l := newLedger("profile-pack")
+		defer l.end()
+		l.op("ProfilePack.SetProfile")
 		p.SetProfile(gs)
+		l.hold("ProfilePack.SetProfile", p.Steps)
+		l.op("ToBytesPack(ProfilePack)")
 		enc := pack.ToBytesPack(p)
+		l.hold("ToBytesPack", enc)
+		l.verify()
+		l.op("ReadPack, decode the steps")
 		w := refcodec.NewW()
 		w.ProfilePack(rp)
 		if !bytes.Equal(enc, w.B) {
@@ -724,8 +807,16 @@ func main() {
 		for k := range gs {
 			gs[k] = stepgen.ToGolib(rp.Steps[k])
 		}
+		l := newLedger("stepsplit-pack")
+		defer l.end()
+		l.op("ProfileStepSplitPack.SetProfile")
 		p.SetProfile(gs)
+		l.hold("ProfileStepSplitPack.SetProfile", p.Steps)
+		l.op("ToBytesPack(ProfileStepSplitPack)")
 		enc := pack.ToBytesPack(p)
+		l.hold("ToBytesPack", enc)
+		l.verify()
+		l.op("ProfileStepSplitPack.Read, decode the steps")
 		w := refcodec.NewW()
 		w.StepSplitPack(rp)
 		if !bytes.Equal(enc, w.B) {
@@ -774,7 +865,11 @@ func main() {
 		for k := range gs {
 			gs[k] = stepgen.ToGolib(rp.Profile[k])
 		}
+		l := newLedger("errorsnap-pack")
+		defer l.end()
+		l.op("ErrorSnapPack1.SetProfile")
 		p.SetProfile(gs)
+		l.hold("ErrorSnapPack1.SetProfile", p.Profile)
 		if r.Intn(4) != 0 {
 			rp.HasStack = true
 			switch r.Intn(4) {
@@ -787,9 +882,16 @@ func main() {
 					rp.Stack = append(rp.Stack, r.I32())
 				}
 			}
+			l.op("ErrorSnapPack1.SetStack")
 			p.SetStack(rp.Stack)
+			l.hold("ErrorSnapPack1.SetStack", p.Stack)
+			l.verify()
 		}
+		l.op("ToBytesPack(ErrorSnapPack1)")
 		enc := pack.ToBytesPack(p)
+		l.hold("ToBytesPack", enc)
+		l.verify()
+		l.op("ReadPack, decode the steps")
 		w := refcodec.NewW()
 		w.ErrorSnapPack(rp)
 		if !bytes.Equal(enc, w.B) {
@@ -839,6 +941,9 @@ func main() {
 		checkStepsBlob("ErrorSnapPack1", "Profile", rp.Profile, ep.Profile)
 		c.Count("packs_errorsnap_decoded", 1)
 	})
+
+	// (8) histories with several live objects, sequential and on several goroutines
+	historySections(false)
 
 	sh := int64(c.NShards)
 	c.Floor("steps_written", int64(nStreams)*5/sh, c.Counter("steps_written"))
